@@ -401,3 +401,30 @@ pub fn m_replay_token_pipeline() {
 }
 #[cfg(kani)]
 pub fn m_replay_token_pipeline() {}
+
+/// nested parentheses natively: (depth, x, y, z): ((( ... (x + y) ... ))) * z
+#[cfg(not(kani))]
+pub fn m_replay_nested() {
+    let depth: u8 = vany(); let x: f64 = vany(); let y: f64 = vany(); let z: f64 = vany();
+    vassume(depth >= 1 && x.is_finite() && y.is_finite() && z.is_finite());
+    let cfg = blank_config();
+    let s = Session::new();
+    let mut tk = mk_tokinizer(&cfg, &s);
+    let mut i = 0u8;
+    while i < depth { tk.tokens.push(Rc::new(TokenType::Operator('('))); i += 1; }
+    tk.tokens.push(Rc::new(TokenType::Number(x, NumberType::Decimal)));
+    tk.tokens.push(Rc::new(TokenType::Operator('+')));
+    tk.tokens.push(Rc::new(TokenType::Number(y, NumberType::Decimal)));
+    i = 0;
+    while i < depth { tk.tokens.push(Rc::new(TokenType::Operator(')'))); i += 1; }
+    tk.tokens.push(Rc::new(TokenType::Operator('*')));
+    tk.tokens.push(Rc::new(TokenType::Number(z, NumberType::Decimal)));
+    crate::tokinizer::verif_k_local::missing_token_adder(&mut tk);
+    let mut p = SyntaxParser::new(&s, &tk);
+    let ast = p.parse().expect("a well-formed expression parses");
+    let got = match Interpreter::execute(&cfg, Rc::new(ast), &s) { Ok(a) => item_value(a.deref()), Err(_) => None }.expect("evaluates to a number");
+    let want = (x + y) * z;
+    assert!((got - want).abs() <= 1e-9 * (x.abs() + y.abs() + want.abs()).max(1.0) || got == want);
+}
+#[cfg(kani)]
+pub fn m_replay_nested() {}
